@@ -36,15 +36,21 @@ OPERATOR_CMP = {"operator.lt": ast.Lt, "operator.le": ast.LtE, "operator.gt": as
 
 
 def _is_generator(fnode):
+    cached = getattr(fnode, "_sa_is_generator", None)
+    if cached is not None:
+        return cached
     todo = list(fnode.body)
+    res = False
     while todo:
         n = todo.pop()
         if isinstance(n, (ast.Yield, ast.YieldFrom)):
-            return True
+            res = True
+            break
         if isinstance(n, (ast.FunctionDef, ast.AsyncFunctionDef, ast.Lambda, ast.ClassDef)):
             continue
         todo.extend(ast.iter_child_nodes(n))
-    return False
+    fnode._sa_is_generator = res
+    return res
 
 
 class Raised(RaisedInModel):
@@ -53,6 +59,13 @@ class Raised(RaisedInModel):
     def __init__(self, name, node=None, msg=""):
         Exception.__init__(self, "%s: %s" % (name, msg))
         self.name, self.node, self.msg = name, node, msg
+
+
+class _Suppress:
+    """contextlib.suppress(*classes) / contextlib.nullcontext(value)"""
+
+    def __init__(self, names, enter_result=None):
+        self.names, self.enter_result = names, enter_result
 
 
 def exc_matches(name, handler_names):
@@ -457,6 +470,16 @@ class ModelEval(Evaluator):
                     for x in items:
                         acc = self.call(node, args[0], [acc, x], {})
                     return acc
+                if h is None and func.data[0] == "contextlib.suppress":
+                    names = []
+                    for a_ in args:
+                        if isinstance(a_, Marker) and a_.kind in ("exc", "ext", "pkg"):
+                            names.append(a_.data[0] if a_.kind == "exc" else (a_.data[0].split(".")[-1] if a_.kind == "ext" else getattr(a_.data[0], "name", None)))
+                        else:
+                            raise Unsupported("contextlib.suppress(%r)" % (a_,))
+                    return _Suppress(names)
+                if h is None and func.data[0] == "contextlib.nullcontext":
+                    return _Suppress([], args[0] if args else None)
                 if h is None and func.data[0] in ("copy.copy", "copy.deepcopy") and len(args) >= 1:
                     return self.py_copy(args[0], deep=func.data[0] == "copy.deepcopy", node=node,
                                         memo=(args[1] if len(args) > 1 and isinstance(args[1], dict) else kwargs.get("memo") if isinstance(kwargs.get("memo"), dict) else None))
@@ -846,11 +869,27 @@ class ModelEval(Evaluator):
                     break
             return
         if isinstance(st, ast.With):
+            cms = []
             for item in st.items:
-                v = self.ev(item.context_expr)
+                cm = self.ev(item.context_expr)
+                entered = self._cm_enter(cm, st)
+                cms.append(cm)
                 if item.optional_vars is not None:
-                    self.assign(item.optional_vars, v)
-            self.exec_block(st.body)
+                    self.assign(item.optional_vars, entered)
+            try:
+                self.exec_block(st.body)
+            except (Raised, ProgramRaised) as e:
+                e_ = e if isinstance(e, Raised) else Raised(type(e.exc).__name__, st, str(e.exc))
+                for cm in reversed(cms):
+                    if self._cm_exit(cm, e_, st):
+                        return          # the context manager swallowed the exception
+                raise
+            except (ReturnValue, _Continue, _Break):
+                for cm in reversed(cms):
+                    self._cm_exit(cm, None, st)
+                raise
+            for cm in reversed(cms):
+                self._cm_exit(cm, None, st)
             return
         if isinstance(st, (ast.Import, ast.ImportFrom, ast.Global, ast.Nonlocal)):
             return
@@ -900,6 +939,33 @@ class ModelEval(Evaluator):
         if isinstance(st, ast.ClassDef):
             raise Unsupported("nested class definition")
         return super().exec_stmt(st)
+
+    def _cm_enter(self, cm, node):
+        if isinstance(cm, _Suppress):
+            return cm.enter_result
+        if isinstance(cm, PyObj):
+            m = self.tree.method(cm._cls, "__enter__")
+            if m is None:
+                raise Raised("AttributeError", node, "__enter__")
+            return self.invoke(m, [cm], {}, node)
+        if isinstance(cm, Model) and hasattr(cm, "__enter__"):
+            return cm.__enter__()
+        return cm
+
+    def _cm_exit(self, cm, exc, node):
+        if isinstance(cm, _Suppress):
+            return exc is not None and exc_matches(exc.name, cm.names)
+        if isinstance(cm, PyObj):
+            m = self.tree.method(cm._cls, "__exit__")
+            if m is None:
+                raise Raised("AttributeError", node, "__exit__")
+            a = [None, None, None] if exc is None else [Marker("exc", (exc.name,)), exc, None]
+            r = self.invoke(m, [cm] + a, {}, node)
+            return exc is not None and r is not None and self.truth(r, node)
+        if isinstance(cm, Model) and hasattr(cm, "__exit__"):
+            r = cm.__exit__(None, None, None) if exc is None else cm.__exit__(exc.name, exc, None)
+            return exc is not None and bool(r)
+        return False
 
     def handler_names(self, h):
         if h.type is None:
